@@ -412,7 +412,7 @@ func init() {
 			"oracle: no error/panic, replicas byte-identical after the quiescent closure and equal to the server rebuild, Root()==Marshal() after every event; " +
 			"each execution applies two concurrent edits (all non-trivial, distinct by construction)",
 		Assume:      []string{"memdb backend"},
-		QuickBudget: 170 * time.Second,
+		QuickBudget: 300 * time.Second,
 		Run:         c19Run,
 		Reproduce: func(f *Found) (bool, error) {
 			sc := *f.Scenario
